@@ -1,6 +1,8 @@
 package checks
 
 import (
+	"os"
+	"verif/proj"
 	"encoding/json"
 	"fmt"
 	"time"
@@ -18,6 +20,7 @@ type c12Spec struct {
 	Split  int  `json:"split"`  // DivideCentury (short formats)
 	Sep    bool `json:"sep"`    // text written with separators
 	Hist   bool `json:"hist,omitempty"` // call-history family: one converter instance used for sequences of dates
+	Cfg    bool `json:"cfg,omitempty"`  // the converters a RUN uses: format/century split from the project file and from the batch line (Format = file's format)
 }
 
 func c12Text(f hermes.DateFormat, t time.Time, sep bool) string {
@@ -73,6 +76,10 @@ func init() {
 					s = append(s, c12Spec{Format: int(f), Split: split, Sep: true, Hist: true})
 				}
 			}
+			// the converters a run builds from its configuration: file format x line format x file split x line split
+			for _, f := range []hermes.DateFormat{hermes.DateDEshort, hermes.DateDElong, hermes.DateENshort, hermes.DateENlong} {
+				s = append(s, c12Spec{Format: int(f), Cfg: true})
+			}
 			return mc.Specs(s)
 		},
 		Run: c12Run,
@@ -83,6 +90,10 @@ func c12Run(raw json.RawMessage, c *mc.Ctx) {
 	sp := mc.Decode[c12Spec](raw)
 	if sp.Hist {
 		c12Hist(sp, c)
+		return
+	}
+	if sp.Cfg {
+		c12Cfg(sp, c)
 		return
 	}
 	f := hermes.DateFormat(sp.Format)
@@ -250,4 +261,82 @@ func c12Hist(sp c12Spec, c *mc.Ctx) {
 	c.Count("history_sequences", len(small)*len(small)*len(small)+len(months)*len(months)+2)
 	c.Sample(map[string]interface{}{"format": f.String(), "split": sp.Split, "history_alphabet": len(small), "pair_alphabet": len(months)})
 	c.Outcome("ok-history")
+}
+
+type c12Abort struct{}
+
+// c12Cfg: the date converters of a run (GlobalVarsMain.Datum / Kalender) must be the converters of the EFFECTIVE
+// configuration: format and century split from the batch line if given there, else from the project file.
+func c12Cfg(sp c12Spec, c *mc.Ctx) {
+	root := scratchRoot()
+	defer os.RemoveAll(root)
+	fileFmt := hermes.DateFormat(sp.Format)
+	b := e1Base{Soil: "loam12", GW: 99, InitW: 0.6, InitN: 20, ET: 3}
+	p := e1Project(b, 10)
+	samples := []time.Time{time.Date(1929, 12, 31, 0, 0, 0, 0, time.UTC), time.Date(1930, 1, 1, 0, 0, 0, 0, time.UTC), time.Date(1959, 6, 13, 0, 0, 0, 0, time.UTC), time.Date(1960, 2, 29, 0, 0, 0, 0, time.UTC),
+		time.Date(1999, 12, 31, 0, 0, 0, 0, time.UTC), time.Date(2000, 3, 1, 0, 0, 0, 0, time.UTC), time.Date(2024, 2, 29, 0, 0, 0, 0, time.UTC), time.Date(2029, 11, 5, 0, 0, 0, 0, time.UTC)}
+	for _, fileSplit := range []int{-1, 30, 60} {
+		for _, lineFmt := range []int{-1, 0, 1, 2, 3} {
+			for _, lineSplit := range []int{-1, 0, 30, 60} {
+				p.Config["Dateformat"] = fileFmt.String()
+				delete(p.Config, "DivideCentury")
+				effSplit := 50 // (the project builder's configuration file carries DivideCentury: 50 unless told otherwise)
+				if fileSplit >= 0 {
+					p.Config["DivideCentury"] = fmt.Sprint(fileSplit)
+					effSplit = fileSplit
+				}
+				p.Config["EndDate"] = c12Text(fileFmt, time.Date(2001, 4, 19, 0, 0, 0, 0, time.UTC), false)
+				p.Write(root)
+				eff := fileFmt
+				args := p.Args(root)
+				if lineFmt >= 0 {
+					eff = hermes.DateFormat(lineFmt)
+					// (the end date is a date-bearing value of the configuration: it goes with the format)
+					args = append(args, fmt.Sprintf("Dateformat=%d", lineFmt), "EndDate="+c12Text(eff, time.Date(2001, 4, 19, 0, 0, 0, 0, time.UTC), false))
+				}
+				if lineSplit >= 0 {
+					args = append(args, fmt.Sprintf("DivideCentury=%d", lineSplit))
+					effSplit = lineSplit
+				}
+				refConv, refBack := hermes.DateConverter(effSplit, eff), hermes.KalenderConverter(eff, ".")
+				long := eff == hermes.DateDElong || eff == hermes.DateENlong
+				label := fmt.Sprintf("config.yml Dateformat=%v DivideCentury=%d, batch line format=%d split=%d (-1 = not given)", fileFmt, fileSplit, lineFmt, lineSplit)
+				reached := false
+				pr := &hermes.VerifProbe{Config: func(g *hermes.GlobalVarsMain, cfg *hermes.Config, hp *hermes.HFilePath) {
+					reached = true
+					for _, t := range samples {
+						if !long && (t.Year() < 1900+effSplit || t.Year() > 1999+effSplit) {
+							continue // outside the window in which a two-digit year is unambiguous
+						}
+						txt := c12Text(eff, t, false)
+						wd, wn := refConv(txt)
+						gd, gn := g.Datum(txt)
+						c.Eval(2)
+						if gd != wd || gn != wn {
+							c.Violate("run-converter-differs-from-effective-configuration text->number", fmt.Sprintf("%s: the run converts %q to day %d (day of year %d), the effective configuration (format %v, split %d) gives day %d (%d)", label, txt, gn, gd, eff, effSplit, wn, wd), nil)
+							break
+						}
+						if got, want := g.Kalender(wn), refBack(wn); got != want {
+							c.Violate("run-converter-differs-from-effective-configuration number->text", fmt.Sprintf("%s: the run writes day %d as %q, the effective configuration (format %v) gives %q", label, wn, got, eff, want), nil)
+							break
+						}
+					}
+					panic(c12Abort{})
+				}}
+				proj.Run(root, args, pr)
+				c.Trace(1)
+				c.Transition(1)
+				h := mc.NewHasher().S("cfg").I(sp.Format).I(fileSplit).I(lineFmt).I(lineSplit).Sum()
+				c.State(h)
+				if lineFmt >= 0 || lineSplit >= 0 {
+					c.NonTrivial(h)
+				}
+				if !reached {
+					c.Violate("configuration-not-read", fmt.Sprintf("%s: the run did not reach the end of the configuration reader", label), nil)
+				}
+			}
+		}
+	}
+	c.Sample(map[string]interface{}{"file_format": fileFmt.String(), "cases": 60})
+	c.Outcome("ok-run-converters")
 }
